@@ -82,4 +82,14 @@ theorem counter_keys_nodup (h : List Bytes) : (akeys (Counter.run h).items).Nodu
     | cons e l ih => intro c hc; exact ih _ (counter_sample_keys c e hc)
   exact this h {} (by simp [akeys])
 
+theorem filterMap_keys {α : Type} (m : List (Bytes × α)) (ks : List Bytes) (h : ∀ k ∈ ks, (aget m k).isSome = true) :
+    (ks.filterMap fun k => (aget m k).map fun v => (k, v)).map (·.1) = ks := by
+  induction ks with
+  | nil => rfl
+  | cons k ks ih =>
+    have hk := h k (by simp)
+    obtain ⟨v, hv⟩ := Option.isSome_iff_exists.mp hk
+    simp only [List.filterMap_cons, hv, Option.map_some, List.map_cons]
+    rw [ih (fun k' hk' => h k' (List.mem_cons_of_mem _ hk'))]
+
 end Rare.C07
